@@ -5,6 +5,16 @@ FAST = {"variant": "fast"}
 def q(budget=90, **kw):
     d = {"variant": "fast", "budget_s": budget}; d.update(kw); return d
 
+def diff_prop(technique, level_text, level_note, rule, assumptions=(), quick_budget=90, thorough_budget=1200, level="exploration", quick_extra=(), thorough_extra=(), **kw):
+    d = {"level": level, "technique": technique, "level_text": level_text, "level_note": level_note, "rule": rule, "assumptions": list(assumptions),
+         "quick": [q(quick_budget)] + list(quick_extra), "thorough": [q(thorough_budget)] + list(thorough_extra)}
+    d.update(kw)
+    return d
+
+TIERS = [{"variant": "fast", "name": "tier-avx2", "env": {"ZIPORA_VERIF_CPU_TIER": "avx2"}, "budget_s": 300, "scale": 0.25},
+         {"variant": "fast", "name": "tier-sse42", "env": {"ZIPORA_VERIF_CPU_TIER": "sse42"}, "budget_s": 300, "scale": 0.25},
+         {"variant": "fast", "name": "tier-scalar", "env": {"ZIPORA_VERIF_CPU_TIER": "scalar"}, "budget_s": 300, "scale": 0.25}]
+
 PROPS = {
     "C04": {
         "level": "exploration",
@@ -47,4 +57,57 @@ PROPS = {
         "thorough": [q(900), {"variant": "asan", "name": "asan", "scale": 0.3, "budget_s": 600, "leaks": 0},
                      {"variant": "miri", "name": "miri", "shards": 16, "budget_s": 900, "timeout_s": 3000, "scale": 6, "miriflags": "-Zmiri-ignore-leaks -Zmiri-disable-data-race-detector"}],
     },
+    "C11": diff_prop(
+        technique="runtime monitoring: differential oracle (std sort / two-pointer set algebra / multiset equality) over generated sequences and every strategy/config knob",
+        level_text="Every sorting, merging and set-operation entry point (RadixSort u32/u64/bytes, KeyValueRadixSort, AdvancedRadixSort with each forced strategy / radix width / parallel setting, CacheObliviousSort, ReplaceSelectSort and external sort with tiny buffers, multi-way merge, loser tree for 0..64 ways, SIMD merge, both set-operation modules) is run on generated inputs (empty, single, all-equal, sorted, reversed, high-byte-only differences, lengths around the strategy thresholds) and compared with the standard-library result; variants of the same operation are compared with each other.",
+        level_note="Trusted: std sort/merge as the oracle. Deep-recursion failures kill the worker and are attributed through BEGIN/END markers. Not covered: inputs larger than a few MiB, the valgrind tier.",
+        rule="case = (target, generator family, index) -> input sequence(s) + configuration; non-trivial: more than one element (or more than one way); distinct: structural hash of target+config+content."),
+    "C05": diff_prop(
+        technique="runtime monitoring: online differential oracle (BTreeSet model) over generated insert/remove/lookup histories for every trie strategy and wrapper",
+        level_text="Operation histories (tiny alphabets, shared prefixes, empty key, 0x00/0xFF bytes, keys beyond the path-compression limit) are executed on every ZiporaTrie preset / hand-built strategy x storage config, the legacy wrappers, the DAWG types and ParallelLoudsTrie; after every operation the return value and len are compared with a BTreeSet model and periodically the full observable state (contains on members and near misses, keys, keys_with_prefix, iteration, accepts, longest_prefix, re-insert).",
+        level_note="Trusted: BTreeSet model. Targets with an open known finding (critical-bit strategy, LOUDS remove, DAWG insert-after-build) are additionally pinned by a seed-independent corpus so that a behaviour change inside them is still reported.",
+        rule="case = (target, key-generator mode, index) -> operation history; non-trivial: >= 2 distinct keys inserted; distinct: structural hash of target+history.", quick_budget=120),
+    "C06": diff_prop(
+        technique="runtime monitoring: online differential oracle (std HashMap model) over generated histories, adversarial hashers (0, u64::MAX, collisions) and every storage/hash preset",
+        level_text="Histories of insert/remove/get/get_mut/clear/iterate over tiny key spaces (delete then re-insert) and growth to 10^4 keys run on ZiporaHashMap (all presets and strategy combinations, 8 deterministic hashers incl. constant 0 / u64::MAX / low-bit collisions), GoldHashMap (u32/u64 links, all configs, revoke_deleted, both iteration strategies), GoldHashIdx, SmallMap across the inline threshold in both directions, EasyHashMap and HashStrMap; every return value, len and periodically the iteration multiset are compared with std::collections::HashMap.",
+        level_note="Trusted: std HashMap as model; hashers are deterministic so verdicts do not depend on RandomState. The three ZiporaHashMap back ends that are unimplemented stubs are an open known finding.",
+        rule="case = (target, hasher, history family, index); non-trivial: >= 3 mutating ops; distinct: structural hash of target+hasher+history."),
+    "C09": diff_prop(
+        technique="runtime monitoring: differential oracle (the input slice) over generated integer sequences for every element type, constructor and compression strategy; AddressSanitizer pass for the packed-buffer tail",
+        level_text="IntVec<u8..u64,i8..i64> (from_slice / bulk / bulk_simd), UintVector, UintVecMin0, ZipIntVec and SortedUintVec (all configs, log2 block units 4..8) are built from generated sequences (constant, sorted, small range, full range, outliers, type extremes, exact bit widths, lengths around 64/128-element blocks and the strategy thresholds) and every element is read back and compared, together with len and the refusal of out-of-range reads; the chosen strategy is recorded so that evidence shows every CompressionStrategy was hit. The same cases run under AddressSanitizer.",
+        level_note="Trusted: the input slice as oracle. An Err from a constructor is accepted (the statement allows 'reports an error').",
+        rule="case = (target, integer family, index) -> sequence; non-trivial: len >= 2 and constructor Ok; distinct: structural hash.",
+        quick_extra=[{"variant": "asan", "name": "asan", "scale": 0.3, "budget_s": 90, "leaks": 0}],
+        thorough_extra=[{"variant": "asan", "name": "asan", "scale": 0.3, "budget_s": 600, "leaks": 0}, {"variant": "rel", "name": "release", "scale": 0.3, "budget_s": 300}]),
+    "C10": diff_prop(
+        technique="runtime monitoring: online differential oracle (Vec / VecDeque / Vec<String> models) with exact drop accounting; Miri and AddressSanitizer on micro histories",
+        level_text="Histories of push/pop/insert/remove/resize/extend/fill/clear/shrink/clone (vectors) and push_back/pop_front/push_bulk/pop_bulk/reserve/clear/clone (queues, every capacity x head offset x growth path) run on FastVec, ValVec32, CacheAlignedVec, BumpVec, PooledVec, MmapVec, FixedCircularQueue, AutoGrowCircularQueue and the string vectors with a drop-counting element type; content is compared after every operation, out-of-range and empty/full refusals are checked, and at the end no element may be leaked or dropped twice. Micro histories additionally run under Miri and AddressSanitizer.",
+        level_note="Trusted: std containers as models, the Tracked element type's per-thread live set. UltraFastCircularQueue is not compiled into the crate and is not covered.",
+        rule="case = (target, history family, index); non-trivial: >= 3 mutating ops; distinct: structural hash of target+history.",
+        quick_extra=[{"variant": "asan", "name": "asan", "scale": 0.25, "budget_s": 90, "leaks": 0},
+                     {"variant": "miri", "name": "miri", "shards": 12, "budget_s": 240, "timeout_s": 900, "gens": ["micro"], "scale": 0.05, "miriflags": "-Zmiri-ignore-leaks"}],
+        thorough_extra=[{"variant": "asan", "name": "asan", "scale": 0.3, "budget_s": 600, "leaks": 0}]),
+    "C01": diff_prop(
+        technique="runtime monitoring: identity oracle decode(encode(x), |x|) == x over generated payload/training pairs for every entropy codec variant, stream count and preset",
+        level_text="42 codec targets (Huffman order-0 and its serialised tree, contextual Huffman order 0/1/2, the 1/2/4/8-way interleaved order-1 coders, rANS with 1/2/4/8 streams and adaptive, FSE in every preset incl. parallel blocks, dictionary and non-adaptive tables, the LZ dictionary coders, parallel and SIMD Huffman on each tier) are run on generated inputs (14 byte families, boundary lengths, deep-tree Fibonacci/geometric profiles, rare symbols, lengths in every residue of the stream count, payload symbols the training never saw) with training equal to / unrelated to / overlapping the payload; whenever the encoder returns Ok, decoding with the original length must give back the input.",
+        level_note="Trusted: byte equality. Encoder Err is accepted (the statement conditions on success) and counted per target. Not covered: payloads >= 4 GiB.",
+        rule="case = (target, family, index) -> (training, payload); non-trivial: |x| >= 2 and encoder Ok; distinct: structural hash of target+training+payload.", quick_budget=120),
+    "C14": diff_prop(
+        technique="runtime monitoring: differential oracle (portable scalar definition / std function) over every length, alignment and needle position, repeated under forced CPU tiers; guard-page children for over-reads",
+        level_text="Every run-time dispatched kernel (SimdMemOps copy/fill/compare/search, io::simd_memory copy and search, string SIMD search, BMI2 string ops, UTF-8 validation and counting, CRC32C, Base64 (two modules) and hex, bit-manipulation helpers, hash-map string ops, FastVec fast ops, the adaptive selector) is compared with its scalar definition on all lengths 0..200 and around 256/4096/page size, all alignments 0..63, needle at every position, bytes >= 0x80, and a UTF-8 corpus with 22 defect kinds; inputs ending exactly at a PROT_NONE guard page run in forked children so an over-read is a verdict. The quick tier runs native + forced scalar; thorough adds avx2 and sse42.",
+        level_note="Trusted: the harness-side scalar definitions and std (from_utf8, cmp). is_x86_feature_detected! sites cannot be forced below the native tier except through valgrind (not run). Sub-checks whose contract is ambiguous (sse42_strcmp length-first order, BitOps without fallback, hash_string_bmi2 >= 8 bytes, byte-vs-char classification on non-ASCII) are recorded as notes, not asserted.",
+        rule="case = (target, family, index) -> input buffers/offsets; non-trivial: input length >= 1; distinct: structural hash.",
+        quick_extra=[{"variant": "fast", "name": "tier-scalar", "env": {"ZIPORA_VERIF_CPU_TIER": "scalar"}, "budget_s": 60, "scale": 0.5},
+                     {"variant": "fast", "name": "tier-sse42", "env": {"ZIPORA_VERIF_CPU_TIER": "sse42"}, "budget_s": 60, "scale": 0.5}],
+        thorough_extra=TIERS),
+    "C17": diff_prop(
+        technique="runtime monitoring: exact LRU reference model with eviction-callback log and drop accounting; file-bytes oracle for the page cache; per-key history checks and a scripted schedule for the concurrent maps",
+        level_text="LruMap (all presets, capacities 1..8, key space capacity+1..2x) and ConcurrentLruMap (1..8 shards, each load-balancing strategy) run generated get/put/remove/clear/contains histories against an ordered-list LRU model: return values, len <= capacity, which entry is evicted, callback exactly once with the right key and value; page caches (all configs) are read at arbitrary offsets/lengths incl. page-straddling, EOF-crossing and overflow-prone ranges with invalidation and prefetch against the file's bytes; CachedBlobStore is compared with the store it wraps; FSA caches likewise. Concurrent targets (free-running threads with unique values, and one scripted get/evict window) check per-key that a returned value was put for that key.",
+        level_note="Trusted: harness LRU model; Tracked drop accounting. Concurrent targets are free-running (no schedule control inside LruMap): violations found there are sound, absence is weaker evidence.",
+        rule="case = (target, family, index) -> access history / read plan; non-trivial: >= 3 operations; distinct: structural hash."),
+    "C20": diff_prop(
+        technique="runtime monitoring: differential oracle (byte-slice semantics, exact decimal comparison, sorted model) incl. antisymmetry/transitivity over generated pools of numeric strings",
+        level_text="FastStr equality/ordering/hash/search/slicing against the same operations on &[u8] (copies at different alignments); decimal_strcmp / realnum_strcmp (with and without sign) against an exact comparison of normalised (sign, integer digits, fraction digits) on pools of 8-12 strings with all pairs and triples checked for antisymmetry and transitivity and invalid inputs rejected; lexicographic iterators, SortableStrVec and ZoSortedStrVec enumeration against a sorted model with duplicates and empty strings, seek/lower/upper bound positions; join, word boundary, line processing (all line-ending mixes) and case conversion against their definitions.",
+        level_note="Trusted: harness-side exact decimal comparison and std sort. Inputs whose validity the documentation leaves open ('5.', '.5') accept either answer.",
+        rule="case = (target, family, index) -> strings / pools / lists; non-trivial: non-empty input; distinct: structural hash."),
 }
